@@ -15,13 +15,17 @@ COMMON_ASSUMPTIONS = [
 
 FEATURE_TAG = {"pb-encode-default-value": "d"}
 
-THRIFT_RT = ["common", "protos", "ref_thrift", "l0", "insts_l0", "l1", "insts_l1"]
+THRIFT_RT = ["common", "protos", "ref_thrift", "l0", "insts_l0", "l1", "insts_l1", "skip", "linked", "insts_linked", "l2", "insts_l2"]
 
 PB_RT = ["common", "ref_thrift", "ref_pb", "pb", "insts_pb"]
 
 GEN_THRIFT = [("t_basic", "t_basic.thrift", "plain")]
 
 PROPS = {
+    "C11": dict(
+        modules=["common", "protos", "ref_thrift", "l0", "l1", "skip", "c11", "insts_c11"],
+        outside="value trees beyond the 21 shapes of harness/src/skip.rs (containers <= 2 elements, binaries <= 2 bytes); generated types; payloads at or above the 4 KiB zero-copy threshold; a transport that already holds a prefix (window not at the transport's first byte) - not part of the documented contract",
+    ),
     "C02": dict(
         modules=["common", "protos", "ref_thrift", "gen_thrift", "c02", "insts_c02"],
         gen=GEN_THRIFT,
